@@ -405,12 +405,21 @@ class RecList(list):
         return list.__reversed__(self)
 
 
-def measure_append(spec, stream, n, k=1, with_manager=False):
-    """(#calls into indicator code, #distinct candles read through the list) for the append of candles n .. n+k-1"""
+def measure_append(spec, stream, n, k=1, with_manager=False, form="list"):
+    """(#calls into indicator code, #distinct candles read through the list) for the append of candles n .. n+k-1; form: the
+    appended data as a list of Candle objects, ONE bare Candle object, a dict or a flat list (k = 1)"""
     cands = RecList(cm.mk_candles(stream[:n]))
     ind = specs.build_indicator(spec, cands, with_manager=with_manager)
     ind.calculate()
     new = cm.mk_candles(stream[n : n + k])
+    if k == 1 and form == "bare":
+        new = new[0]
+    elif k == 1 and form == "dict":
+        c = new[0]
+        new = {"open": c.open, "high": c.high, "low": c.low, "close": c.close, "volume": c.volume, "timestamp": c.timestamp}
+    elif k == 1 and form == "flat":
+        c = new[0]
+        new = [c.open, c.high, c.low, c.close, c.volume, c.timestamp]
     count = [0]
 
     def prof(frame, event, arg):
@@ -434,7 +443,7 @@ def c07_check(scn):
     k = scn.get("chunk", 1)
     total = len(stream) - k
     mgr = bool(scn.get("with_manager"))
-    res = [measure_append(spec, stream[total - n :], n, k, mgr) for n in scn["lengths"]]
+    res = [measure_append(spec, stream[total - n :], n, k, mgr, scn.get("form", "list")) for n in scn["lengths"]]
     base_calls, base_reach = res[0]
     for n, (calls, reach) in zip(scn["lengths"][1:], res[1:]):
         if calls > base_calls * 1.02 + 3:
@@ -465,7 +474,10 @@ def c07_case(rng, idx, params):
         gap = rng.choice([2, 3, 5]) * 120
         stream = stream[:-chunk] + [((c[0] + gap),) + tuple(c[1:]) for c in stream[-chunk:]]
         scn = {"spec": spec, "stream": stream, "lengths": lengths, "chunk": chunk, "with_manager": True}
+    if chunk == 1:
+        scn["form"] = rng.choice(["list", "bare", "bare", "dict", "flat"])   # every way of handing over ONE candle costs the same
     meta["chunk"] = chunk
+    meta["form"] = scn.get("form", "list")
     meta["fill_gap"] = bool(scn.get("with_manager"))
     try:
         bad = c07_check(scn)
@@ -846,8 +858,11 @@ def c07_hexital_check(scn):
     has_tf = any(m.get("tf") for m in scn["members"])
     res = [measure_hexital_append(scn["members"], scn["stream"][total - n :], n, k) for n in scn["lengths"]]
     base_calls, base_reach = res[0]
+    # members on collapsing timeframes: the two histories start at different phases of the bucket grid, which moves a few warm-up
+    # dependent look-ups (observed: +-2 readings); anything that grows with the history grows by hundreds
+    slack = 12 if has_tf else 3
     for calls, reach in res[1:]:
-        if calls > base_calls * 1.02 + 3:
+        if calls > base_calls * 1.02 + slack:
             return {"clause": "work-grows", "observed": {"n": scn["lengths"], "calls": [r[0] for r in res]},
                     "expected": "number of calls into indicator code per append independent of history length"}
         if reach > base_reach + 2 and not has_tf:   # a timeframe member's manager re-walks its own list (outside the property)
@@ -874,13 +889,25 @@ def c07_hexital_case(rng, idx, params):
     else:
         members = [specs.gen_spec(rng) for _ in range(rng.randint(2, 3))]
     chunk = rng.choice([1, 1, 2])
-    if k >= 0.8 or rng.random() < 0.35:
+    tie_move = rng.random() < 0.15
+    if tie_move:
+        # two averages that have been EXACTLY equal for the whole (flat) history, then the appended candle moves: a cross test that
+        # looks back over the tie must stop after its `length`, not walk the whole run
+        p1, p2 = rng.sample([2, 3, 5, 8], 2)
+        members = [{"kind": "SMA", "period": p1, "round": 4}, {"kind": "SMA", "period": p2, "round": 4},
+                   {"kind": "AMORPH", "fn": rng.choice(["crossover", "crossunder", "cross"]), "a": f"SMA_{p1}", "b": f"SMA_{p2}", "length": 1, "round": 4}]
+        chunk = 1
+    if not tie_move and (k >= 0.8 or rng.random() < 0.35):
         # members on collapsing timeframes of their own (one-minute feed): the Hexital must not redo their history on an append
         for m in rng.sample(members, rng.randint(1, len(members))):
             if m["kind"] != "AMORPH" and not str(m.get("input", "close")).count("."):
                 m["tf"] = rng.choice(["T2", "T3", "T5"])
     lengths = params.get("lengths", [150, 600])
     stream, meta = gen.gen_stream(rng, max(lengths) + chunk, price_style=rng.choice(["walk", "rising", "falling", "jumpy"]), ts_style="regular", step=60)
+    if tie_move:
+        lvl = float(rng.randint(20, 200))
+        up = rng.choice([1.0, -1.0]) * rng.choice([1.0, 5.0])
+        stream = [(t[0], lvl, lvl, lvl, lvl, 10) for t in stream[:-1]] + [(stream[-1][0], lvl, max(lvl, lvl + up), min(lvl, lvl + up), lvl + up, 10)]
     scn = {"members": members, "stream": stream, "lengths": lengths, "chunk": chunk}
     try:
         bad = c07_hexital_check(scn)
